@@ -17,6 +17,7 @@ import (
 	"verifharness/internal/conns"
 	"verifharness/internal/hooks"
 	"verifharness/internal/memnet"
+	"verifharness/internal/rec"
 	"verifharness/internal/track"
 )
 
@@ -64,7 +65,19 @@ var _ io.ReadSeeker = (*parkBody)(nil)
 // bwpark: a block-wise upload on a real udp connection. While the receive path cuts the second block out of the request
 // (parked inside the body's Seek) the caller's context ends. The request call may return only when the library is done with
 // the request: every access to the request's body after the return is a read of a message the application owns again.
+// (Fails: blocks of the upload that carry other bytes than the upload's own; Copies: blocks seen)
 func bwpark(poolSize uint32) Trace {
+	// (the schedule needs the library to reach the body within the watchdog; a run that does not get there says nothing and is repeated)
+	for k := 0; k < 3; k++ {
+		if tr := bwparkOnce(poolSize); tr.Done {
+			return tr
+		}
+	}
+	rec.Die("c12 bwpark: the upload never reached the scheduling point")
+	return Trace{}
+}
+
+func bwparkOnce(poolSize uint32) Trace {
 	t := start()
 	defer track.Stop()
 	tr := Trace{Mode: "bwpark", PoolSize: int(poolSize), Kinds: []string{}}
@@ -121,6 +134,9 @@ func bwpark(poolSize uint32) Trace {
 	cancel() // the caller gives up while the library is inside its request
 	select {
 	case <-done:
+		// the call has returned: the request is the application's again - it re-uses it for its next upload
+		req.SetBody(bytes.NewReader(bytes.Repeat([]byte("NEXT-OWNER-BODY!"), 4)))
+		req.SetPath("/another")
 	case <-time.After(100 * time.Millisecond):
 	}
 	close(body.release)
@@ -133,9 +149,33 @@ func bwpark(poolSize uint32) Trace {
 	u.Quiesce()
 	u.CC.ReleaseMessage(req) // the application is done with its request
 	tr.Garbled = int(body.after.Load())
+	// every block the connection put on the wire for this upload carries the upload's own bytes
+	orig := bytes.Repeat([]byte("0123456789abcdef"), 4)
+	for _, raw := range u.Sess.Out(0) {
+		d, err := memnet.Parse(raw)
+		if err != nil || d.Code != int(codes.POST) || !bytes.Equal(d.Token, first.Token) {
+			continue
+		}
+		bv, _ := d.Opts.GetUint32(message.Block1)
+		off := int(bv>>4) * 16
+		if off+len(d.Payload) > len(orig) || !bytes.Equal(d.Payload, orig[off:off+len(d.Payload)]) {
+			tr.Fails++
+		}
+		tr.Copies++
+	}
 	tr.Done = true
 	tr.Log = t.Finish(poolSize == 0)
 	return tr
+}
+
+// RunPark writes the bwpark records alone (C04 judges the blocks on the wire).
+func RunPark(out string) {
+	w := rec.Create(out)
+	defer w.Close()
+	for k := 0; k < 3; k++ {
+		w.Put(bwpark(0))
+		w.Put(bwpark(64))
+	}
 }
 
 func encUint(v uint32) []byte {
